@@ -43,6 +43,7 @@ pub mod synth {
     #[unit(Megapascal, "m7", MEGA, 1000000)]
     #[unit(Gigapascal, "g20", GIGA, 1000000000)]
     #[unit(Millimeter_Mercury, "mm14", 133.322)]
+    #[unit(Joule_per_Cubic_Meter, "jpcm2", 1)]
     #[ref_unit(Pascal, "p0", NONE)]
     #[unit(Pound_per_Square_Inch, "ppsi17", 6894.757)]
     #[unit(Decibar, "d9", 10000)]
@@ -52,11 +53,10 @@ pub mod synth {
     #[unit(Millibar, "m4", 100)]
     #[unit(Kip_per_Square_Inch, "kpsi18", 6894757)]
     #[unit(Hectopascal, "h3", HECTO, 100)]
-    #[unit(Joule_per_Cubic_Meter, "jpcm2", 1)]
     #[unit(Torr, "t13", 133.322)]
     #[unit(Kilopascal, "k5", KILO, 1000)]
     #[unit(Millipascal, "m11", MILLI, 0.001)]
-    /// 24 units declared out of scale order, several sharing a scale (also with the reference unit)
+    /// 24 units declared out of scale order, several sharing a scale (also with the reference unit, one of those declared above it)
     pub struct Pressure {}
 
     #[quantity]
@@ -86,14 +86,15 @@ pub mod synth {
     #[quantity]
     #[ref_unit(Grain, "gr", NONE, "reference unit")]
     #[unit(Milligrain, "mgr", MILLI, 0.001)]
+    #[unit(Micrograin, "μgr", MICRO, 0.000001)]
     #[unit(Scruple, "sc", 20)]
     #[unit(Dram, "dr", 60.)]
-    /// small quantity with reference unit
+    /// small quantity with reference unit; one symbol spelt with the Greek letter mu (U+03BC), not the micro sign
     pub struct Dose {}
 }
 """
 
-DOSE = QtySpec("crate", "synth", "Dose", "Grain", [U("Grain", "gr", "NONE", 1), U("Milligrain", "mgr", "MILLI", F(1, 1000)), U("Scruple", "sc", None, 20), U("Dram", "dr", None, 60)])
+DOSE = QtySpec("crate", "synth", "Dose", "Grain", [U("Grain", "gr", "NONE", 1), U("Milligrain", "mgr", "MILLI", F(1, 1000)), U("Micrograin", "\u03bcgr", "MICRO", F(1, 10 ** 6)), U("Scruple", "sc", None, 20), U("Dram", "dr", None, 60)])
 
 PILE = QtySpec("crate", "synth", "Pile", None, [U("Pebble", "pb", None, None)])
 TRI = QtySpec("crate", "synth", "Tri", None, [U("Gamma_Ray", "ga", None, None), U("Alpha", "al", None, None), U("Beta", "be", None, None)])
@@ -125,7 +126,7 @@ PRESSURE = QtySpec("crate", "synth", "Pressure", "Pascal", [
     U("Kilopascal", "k5", "KILO", F("1000")),
     U("Millipascal", "m11", "MILLI", F("1/1000")),
 ])
-PRESSURE.decl = ['Centibar', 'Pieze', 'Inch_Mercury', 'Atmosphere', 'Bar', 'Technical_Atmosphere', 'Foot_Water', 'Newton_per_Square_Millimeter', 'Megapascal', 'Gigapascal', 'Millimeter_Mercury', 'Pascal', 'Pound_per_Square_Inch', 'Decibar', 'Newton_per_Square_Meter', 'Micropascal', 'Barye', 'Millibar', 'Kip_per_Square_Inch', 'Hectopascal', 'Joule_per_Cubic_Meter', 'Torr', 'Kilopascal', 'Millipascal']
+PRESSURE.decl = ['Centibar', 'Pieze', 'Inch_Mercury', 'Atmosphere', 'Bar', 'Technical_Atmosphere', 'Foot_Water', 'Newton_per_Square_Millimeter', 'Megapascal', 'Gigapascal', 'Millimeter_Mercury', 'Joule_per_Cubic_Meter', 'Pascal', 'Pound_per_Square_Inch', 'Decibar', 'Newton_per_Square_Meter', 'Micropascal', 'Barye', 'Millibar', 'Kip_per_Square_Inch', 'Hectopascal', 'Torr', 'Kilopascal', 'Millipascal']
 CHARGE = QtySpec("crate", "synth", "Charge", "Coulomb", [U("Coulomb", "C", "NONE", 1), U("Attocoulomb", "aC", "ATTO", F(1, 10 ** 18)),
                                                          U("Dozen_Attocoulomb", "daC", None, F(24, 10 ** 18)), U("Decifemtocoulomb", "dfC", None, F(1, 10 ** 16)), U("Femtocoulomb", "fC", "FEMTO", F(1, 10 ** 15))])
 BUCKET = QtySpec("crate", "synth", "Bucket", "Quart", [U("Quart", "Q", None, 1), U("Milliquart", "mQ", "MILLI", F(1, 1000)), U("Dozen_Quart", "dzQ", None, 12), U("Kiloquart", "kQ", "KILO", 1000)])
